@@ -60,8 +60,9 @@ RULE = ("pool of ~100 operations over seeded structured files of the seven forma
         "seeded random sequences of 2-6 pool operations (one in fifteen is a chain of 30); a case is one "
         "(history prefix, operation) pair, distinct by the pair; all are non-trivial (prefix non-empty)")
 
-FMT = ["android", "dtd", "properties", "ini", "inc", "ftl", "po"]
-FILE = ["strings.xml", "f.dtd", "f.properties", "f.ini", "f.inc", "f.ftl", "f.po"]
+FMT = ["android", "dtd", "properties", "ini", "inc", "ftl", "po", "none"]   # 7: no parser for the name
+NOPARSER = 7
+FILE = ["strings.xml", "f.dtd", "f.properties", "f.ini", "f.inc", "f.ftl", "f.po", "f.txt"]
 PARSER_CLASS = ["AndroidParser", "DTDParser", "PropertiesParser", "IniParser", "DefinesParser",
                 "FluentParser", "PoParser"]
 KEYS = ["alpha", "beta", "gamma", "delta", "accesskey", "eps"]
@@ -260,9 +261,38 @@ MATCHER_QUERIES = [
 ]
 
 
+# locales of one language whose plural rules may differ (plurals.CATEGORIES_BY_LOCALE has regional
+# entries for zh-CN / zh-TW only; every other region falls back to the language)
+LOCALE_FAMILIES = {
+    "zh": ["zh-CN", "zh-HK", "zh-TW", "zh"],
+    "pt": ["pt-BR", "pt-PT", "pt"],
+    "en": ["en-GB", "en-ZA"],
+    "es": ["es-AR", "es-MX"],
+    "sr": ["sr", "sr-Latn"],
+}
+PLURAL_PROPS_REF = ("# LOCALIZATION NOTE (downloads): Semi-colon list of plural forms.\n"
+                    "# See: http://developer.mozilla.org/en/docs/Localization_and_Plurals\n"
+                    "# #1 is the number of downloads\n"
+                    "downloads=One download;#1 downloads\n")
+PLURAL_PROPS_L10N = [PLURAL_PROPS_REF.replace("One download;#1 downloads", v)
+                     for v in ("#1 dl;#1 dls", "#1 dl", "#1 a;#1 b;#1 c")]
+PLURAL_FTL_REF = "downloads = { $num ->\n    [one] One download\n   *[other] { $num } downloads\n}\n"
+PLURAL_FTL_L10N = ("downloads = { $num ->\n    [one] 1 dl\n    [few] some dl\n   *[many] { $num } dls\n}\n")
+# names that share an extension (or differ by a suffix) but are dispatched differently
+NAME_FAMILIES = {
+    "xml": ["strings.xml", "foo.xml", "AndroidManifest.xml", "mystrings-v2.xml"],
+    "po": ["f.po", "messages.pot", "f.po.orig"],
+    "inc": ["f.inc", "defines.inc", "f.inc.in"],
+    "properties": ["f.properties", "a.b.properties", "f.properties.bak"],
+    "dtd": ["f.dtd", "f.dtd.in"],
+}
+XML_OTHER = ('<?xml version="1.0" encoding="utf-8"?>\n<SearchPlugin xmlns="http://www.mozilla.org/2006/browser/search/">\n'
+             "<ShortName>%s</ShortName>\n</SearchPlugin>\n")
+
+
 def build_pool(rng):
     """texts per format and the list of operation specs (plain JSON)"""
-    texts = {f: [] for f in range(7)}
+    texts = {f: [] for f in range(8)}
 
     def add_text(f, t):
         if t not in texts[f]:
@@ -271,7 +301,7 @@ def build_pool(rng):
 
     ops = []
     pairs = {f: [] for f in range(7)}
-    for f, fmt in enumerate(FMT):
+    for f, fmt in enumerate(FMT[:7]):
         for i in range(3):
             recs = gen_records(rng)
             flav = {0: 0, 1: 1, 2: 0}[i]
@@ -323,6 +353,40 @@ def build_pool(rng):
     for r, l in [(q, q), (pairs[d][0][0], q), (q, pairs[d][0][1])] + pairs[d][:2]:
         ops.append({"k": "compare", "f": d, "ref": r, "l10n": l, "extra": ["android-dtd"], "merge": False})
     ops.append({"k": "lint", "f": d, "ref": None, "cur": q, "extra": ["android-dtd"]})
+    # same-language locales on plural-bearing files (the checker asks plurals.get_plural(locale))
+    pr = add_text(pf, PLURAL_PROPS_REF)
+    pl = [add_text(pf, t) for t in PLURAL_PROPS_L10N]
+    ff = FMT.index("ftl")
+    fr, fl = add_text(ff, PLURAL_FTL_REF), add_text(ff, PLURAL_FTL_L10N)
+    for lang, locs in sorted(LOCALE_FAMILIES.items()):
+        for loc in locs:
+            for l in (pl if lang == "zh" else pl[:1]):
+                ops.append({"k": "compare", "f": pf, "ref": pr, "l10n": l, "extra": None, "merge": False,
+                            "loc": loc, "fam": "loc:" + lang})
+            ops.append({"k": "compare", "f": ff, "ref": fr, "l10n": fl, "extra": None, "merge": False,
+                        "loc": loc, "fam": "loc:" + lang})
+    ops.append({"k": "lint", "f": pf, "ref": pr, "cur": pl[0], "extra": None})
+    ops.append({"k": "lint", "f": ff, "ref": None, "cur": fl, "extra": None})
+    # names of one extension family: with and without a parser
+    for ext, names in sorted(NAME_FAMILIES.items()):
+        for name in names:
+            f = dispatch(name)
+            fam = "ext:" + ext
+            if f == NOPARSER:
+                a = add_text(f, XML_OTHER % "Example" if ext == "xml" else "k = v\nsome text\n")
+                b = add_text(f, XML_OTHER % "Beispiel" if ext == "xml" else "k = w\nother text\n")
+            else:
+                a, b = pairs[f][0]
+            ops.append({"k": "getparser", "name": name, "fam": fam})
+            ops.append({"k": "compare", "f": f, "name": name, "ref": a, "l10n": b, "extra": None,
+                        "merge": ext in ("xml", "inc"), "fam": fam})
+            if ext in ("xml", "po"):
+                ops.append({"k": "lint", "f": f, "name": name, "ref": None, "cur": b, "extra": None, "fam": fam})
+                ops.append({"k": "merge", "f": f, "name": name, "rs": [b, a], "fam": fam})
+                ops.append({"k": "serialize", "f": f, "name": name, "ref": a, "old": b,
+                            "new": {"alpha": "NEW", "hello": "x"}, "fam": fam})
+            if f != NOPARSER:
+                ops.append({"k": "parse", "f": f, "name": name, "t": b, "fam": fam})
     for c, loc, path, ent in FILTER_QUERIES:
         ops.append({"k": "filter", "c": c, "loc": loc, "path": path, "ent": ent})
     for c in range(len(CONFIGS)):
@@ -401,8 +465,23 @@ class Proc:
 
 
 def parser_of(f):
+    """the singleton of format f, read from the dispatch table (NOT through getParser: observing
+    the state must not go through anything that could itself remember something)"""
     from compare_locales import parser
-    return parser.getParser(FILE[f])
+    return parser.__dict__["__constructors"][f][1]
+
+
+def dispatch(name):
+    """the harness's own reading of parser.__constructors: index of the first pattern that matches"""
+    from compare_locales import parser
+    for i, (pat, _) in enumerate(parser.__dict__["__constructors"]):
+        if _re.search(pat, name):
+            return i
+    return NOPARSER
+
+
+def name_of(spec):
+    return spec.get("name") or FILE[spec["f"]]
 
 
 def is_junk(e):
@@ -476,7 +555,8 @@ def exec_op(proc, spec, texts, keep):
     """run one operation; returns (result, live entry objects or None)"""
     k = spec["k"]
     if k == "parse" or k == "walkflag":
-        p = parser_of(spec["f"])
+        from compare_locales import parser as _parser
+        p = _parser.getParser(name_of(spec))
         p.readUnicode(texts[spec["f"]][spec["t"]])
         if k == "walkflag":
             p.ctx.filter_empty_lines = True
@@ -491,17 +571,29 @@ def exec_op(proc, spec, texts, keep):
                 "pent": [pentry_of(e) for e in es],
                 "jid": [junk_id(e) if is_junk(e) else 0 for e in es]}, es
     f = spec.get("f")
+    name = name_of(spec) if f is not None else None
+    if k == "getparser":
+        from compare_locales import parser as _parser
+
+        def go():
+            has = _parser.hasParser(spec["name"])
+            try:
+                cls = type(_parser.getParser(spec["name"])).__name__
+            except UserWarning:
+                cls = "UserWarning"
+            return [bool(has), cls]
+        return guarded(go), None
     if k == "compare":
         from compare_locales.compare import ContentComparer, Observer
         from compare_locales.paths import File
-        refp = proc.write(FILE[f], texts[f][spec["ref"]])
-        l10p = proc.write(FILE[f], texts[f][spec["l10n"]])
-        mergep = proc.path(FILE[f]) if spec["merge"] else None
+        refp = proc.write(name, texts[f][spec["ref"]])
+        l10p = proc.write(name, texts[f][spec["l10n"]])
+        mergep = proc.path(name) if spec["merge"] else None
 
         def go():
             cc = ContentComparer()
             cc.observers.append(Observer())
-            cc.compare(File(refp, "sub/" + FILE[f]), File(l10p, "sub/" + FILE[f], locale="de"),
+            cc.compare(File(refp, "sub/" + name), File(l10p, "sub/" + name, locale=spec.get("loc", "de")),
                        mergep, spec["extra"])
             merged = None
             if mergep and os.path.exists(mergep):
@@ -511,26 +603,28 @@ def exec_op(proc, spec, texts, keep):
         return canon_tmp(guarded(go), proc.tmp), None
     if k == "lint":
         from compare_locales.lint.linter import L10nLinter
-        curp = proc.write(FILE[f], texts[f][spec["cur"]])
-        refp = proc.write(FILE[f], texts[f][spec["ref"]]) if spec["ref"] is not None else None
+        curp = proc.write(name, texts[f][spec["cur"]])
+        refp = proc.write(name, texts[f][spec["ref"]]) if spec["ref"] is not None else None
 
         def go():
-            return list(L10nLinter().lint_file(curp, refp, spec["extra"]))
+            # the public entry: files without a parser are skipped
+            return list(L10nLinter().lint([curp], lambda path: (refp, spec["extra"])))
         return canon_tmp(guarded(go), proc.tmp), None
     if k == "merge":
         from compare_locales.merge import merge_channels
         rs = [texts[f][i].encode("utf-8") for i in spec["rs"]]
-        return canon_tmp(guarded(lambda: merge_channels(FILE[f], rs)), proc.tmp), None
+        return canon_tmp(guarded(lambda: merge_channels(name, rs)), proc.tmp), None
     if k == "serialize":
         from compare_locales.serializer import serialize
 
         def go():
-            p = parser_of(f)
+            from compare_locales import parser as _parser
+            p = _parser.getParser(name)
             p.readUnicode(texts[f][spec["ref"]])
             ref = list(p.walk())
             p.readUnicode(texts[f][spec["old"]])
             old = list(p.walk())
-            return serialize(FILE[f], ref, old, dict(spec["new"]))
+            return serialize(name, ref, old, dict(spec["new"]))
         return canon_tmp(guarded(go), proc.tmp), None
     if k == "filter":
         from compare_locales.paths import File
@@ -590,8 +684,8 @@ def check_parser_table():
     if names != PARSER_CLASS:
         raise RuntimeError("parser.__constructors changed: %r" % names)
     for f in range(7):
-        if type(parser_of(f)).__name__ != PARSER_CLASS[f]:
-            raise RuntimeError("getParser(%s) is not %s" % (FILE[f], PARSER_CLASS[f]))
+        if dispatch(FILE[f]) != f:
+            raise RuntimeError("%s is not dispatched to %s" % (FILE[f], PARSER_CLASS[f]))
 
 
 def run_sequence(specs, texts):
@@ -760,7 +854,7 @@ class Tables:
                                                   [enc_pentry(p) for p in
                                                    events_of(r["pent"], r["jid"],
                                                              eff_counter(st, o["f"]))], int(fl)]
-            elif o["k"] in ("compare", "lint", "merge", "serialize"):
+            elif o["k"] in ("compare", "lint", "merge", "serialize", "getparser"):
                 self.vres[o["id"]] = intern.id(b["res"])
                 if st["dtd_set"]:
                     self.dtd[o["id"]] = st["dtd"]
@@ -777,6 +871,8 @@ class Tables:
 
     def op_texts(self, o):
         k = o["k"]
+        if o.get("f") == NOPARSER or k == "getparser":
+            return []          # nothing is parsed (no parser is found for the name)
         if k == "parse":
             return [o["t"]]
         if k == "compare":
@@ -792,6 +888,8 @@ class Tables:
     def enc_op(self, o):
         k, tx = o["k"], self.texts
         f = o.get("f")
+        if f == NOPARSER or k == "getparser":
+            return [4, 0, [], o["id"]]      # an operation that reads no text with any parser
         if k == "parse":
             return [0, f, tx[f][o["t"]]]
         if k == "rewalk":
@@ -839,7 +937,7 @@ def impl_view(seq, run, intern):
     per = []
     for o, r in zip(seq, run["ops"]):
         st = r["state"]
-        if o["k"] in ("parse", "rewalk"):
+        if o["k"] in ("parse", "rewalk") and o.get("f") != NOPARSER:
             outp = [0, [[common.s2l(k), [common.s2l(x) for x in obs]] for k, obs in r["res"]["ents"]]]
         elif o["k"] == "reconfig":
             outp = [2]
@@ -853,7 +951,7 @@ def impl_view(seq, run, intern):
         per.append([outp, state])
     final = []
     for o, fin in zip(seq, run["final"]):
-        final.append([] if fin is None else
+        final.append([] if fin is None or o.get("f") == NOPARSER else
                      [[common.s2l(k), [common.s2l(x) for x in obs]] for k, obs in fin["ents"]])
     return [per, final]
 
@@ -903,7 +1001,7 @@ def collides(tables, o, j0):
 def describe(seq, texts, upto=None):
     out = []
     for o in seq[:upto]:
-        d = {k: v for k, v in o.items() if k != "id"}
+        d = {k: v for k, v in o.items() if k not in ("id", "fam")}
         for fld in ("t", "ref", "l10n", "cur", "old"):
             if fld in d and d[fld] is not None and "f" in d:
                 d[fld] = texts[d["f"]][d[fld]]
@@ -1293,7 +1391,7 @@ def draw_history(rng, ops, weights, n):
     return out
 
 
-WEIGHT = {"parse": 6, "rewalk": 1.5, "compare": 5, "lint": 3, "merge": 2.5, "serialize": 2.5,
+WEIGHT = {"getparser": 1.5, "parse": 6, "rewalk": 1.5, "compare": 5, "lint": 3, "merge": 2.5, "serialize": 2.5,
           "filter": 3, "reconfig": 0.6, "moz": 1.5, "matcher": 2}
 
 
@@ -1412,8 +1510,10 @@ def history_round(chk, rng, model, nseq, rnd, t0):
         key = {"moz": "moz", "matcher": "matcher"}.get(o["k"])
         if o["k"] in ("filter", "reconfig"):
             key = "cfg%d" % o["c"]
-        if o["k"] in ("parse", "rewalk"):
+        if o["k"] in ("parse", "rewalk") and "name" not in o:
             key = "parser%d" % o["f"]
+        if "fam" in o:
+            key = o["fam"]        # same-language locales; names of one extension
         if key:
             fam.setdefault(key, []).append(o)
     for key, members in sorted(fam.items()):
@@ -1476,7 +1576,7 @@ def run(chk, runner_ok):
 
 def undescribe(desc):
     """the inverse of describe(): texts registry and operation specs of a recorded sequence"""
-    texts = {f: [] for f in range(7)}
+    texts = {f: [] for f in range(8)}
     ops = []
 
     def tid(f, t):
@@ -1495,7 +1595,7 @@ def undescribe(desc):
         ops.append(o)
     # every text also as a parse operation (the model's walk table needs it)
     seq = list(ops)
-    for f in range(7):
+    for f in range(7):      # not the texts of names without a parser
         for i in range(len(texts[f])):
             ops.append({"k": "parse", "f": f, "t": i})
     for i, o in enumerate(ops):
